@@ -528,7 +528,7 @@ func runOne(t *testing.T, tr *drv.Tracer, sid int, sched []drv.Step) (hung bool)
 		defer e.mu.Unlock()
 		return e.running == 0 && e.asyncs == 0 && e.shut != 1
 	}
-	for k := 0; !idle() && k < 4000; k++ {
+	for k := 0; !idle() && k < 1900; k++ {
 		time.Sleep(time.Second)
 		synctest.Wait()
 	}
